@@ -55,7 +55,8 @@ EXPECTED_PROBES = ["split_at_zero", "double_interrupt", "clone_then_save", "clon
                    "plateau_scheduler_reduced_lr", "dataset_optimizer_present", "reload_zip",
                    "reload_dir", "opt_sgd", "opt_adam", "opt_adamw", "sched_cyclic", "sched_linear",
                    "sched_exp", "obj_potential", "obj_pure_phase", "modes2", "slices2",
-                   "clone_independence_checked", "clone_fallback_natural"]
+                   "clone_independence_checked", "clone_fallback_natural",
+                   "save_then_continue_same_object", "reset_after_interruption"]
 RTOL = 1e-5   # candidate threshold; a candidate is a violation only beyond NOISE_FACTOR x measured drift
 _ctx = {}
 
@@ -146,9 +147,14 @@ def gen(rng: Rng, tier, i):
     ops = [{"op": "recon", "n": rng.pick([0, 1, 2, 3, 4])}]
     for j in range(rng.pick([2, 3, 4, 5])):
         r = rng.fork(("op", j))
-        k = r.weighted([("recon", 4), ("reload", 4), ("clone", 2), ("clone_fallback", 1)])
+        k = r.weighted([("recon", 4), ("reload", 4), ("clone", 2), ("clone_fallback", 1),
+                        ("save_keep", 1), ("recon_reset", 0.5)])
         if k == "recon":
             ops.append({"op": "recon", "n": r.pick([1, 1, 2, 3])})
+        elif k == "recon_reset":
+            ops.append({"op": "recon", "n": r.pick([1, 2]), "reset": True})
+        elif k == "save_keep":
+            ops.append({"op": "save_keep", "store": r.pick(["zip", "dir"]), "level": r.pick([None, 4])})
         elif k == "reload":
             ops.append({"op": "reload", "store": r.pick(["zip", "dir"]), "level": r.pick([None, 0, 4, 9]),
                         "path_kind": r.pick(["str", "Path"])})
@@ -356,14 +362,17 @@ def run(plan):
                     kw = {"num_iters": op["n"], "loss_type": cfg["loss"]}
                     if cfg["snapshots"]:
                         kw["store_snapshots_every"] = cfg["snapshots"]
-                    if first:
+                    restart = first or op.get("reset")
+                    if restart:
                         kw.update(reset=True, optimizer_params=None, scheduler_params=None,
                                   constraints=None)
                         if op["n"] == 0:
                             bump(probes, "split_at_zero")
+                        if not first:
+                            bump(probes, "reset_after_interruption" if interrupted else "reset_rerun")
                     for X in (U, R):
                         kw2 = dict(kw)
-                        if first:
+                        if restart:
                             kw2["optimizer_params"] = copy.deepcopy(_opt_params(cfg))
                             kw2["scheduler_params"] = copy.deepcopy(cfg["sched"])
                             kw2["constraints"] = copy.deepcopy(cfg["constraints"])
@@ -428,6 +437,24 @@ def run(plan):
                 if first:
                     continue  # nothing to interrupt before the first reconstruct call
                 old = _state(R)
+                if k == "save_keep":
+                    # save, keep working with the SAME live object: saving must not disturb it
+                    name = f"keep{j}.zip" if op["store"] == "zip" else f"keep{j}"
+                    _, exc, _ = E.call(lambda: R.save(E.path(name), mode="w", store=op["store"],
+                                                      compression_level=op["level"],
+                                                      save_raw_data=True, verbose=0))
+                    if exc is not None:
+                        viol("op_raised", f"{tag}: save raised {exc!r}",
+                             f"op_raised:save:{type(exc).__name__}")
+                        break
+                    d0 = _cmp_exact(old, _state(R))
+                    if d0:
+                        viol("save_changed_source", f"{tag}: saving changed the live object: {d0}",
+                             "save_changed_source:" + d0[0].split(" ")[0])
+                    bump(probes, "save_then_continue_same_object")
+                    interrupted += 1
+                    last_was_interrupt = True
+                    continue
                 if last_was_interrupt:
                     bump(probes, "double_interrupt")
                 if k == "reload":
@@ -497,6 +524,11 @@ def run(plan):
                             viol("clone_shares_state", f"{tag}: iterating the original changed its "
                                  f"clone: {d1}", "clone_shares_state:orig->clone:" + d1[0].split(" ")[0])
                         probe_clone = new.clone()
+                        try:   # constraint dictionaries must not be shared either
+                            probe_clone.constraints = {"object": {"tv_weight_xy": 0.123},
+                                                       "probe": {"tv_weight": 0.456}}
+                        except Exception:
+                            pass
                         probe_clone.reconstruct(num_iters=1, loss_type=cfg["loss"])
                         d2 = _cmp_exact(before_new, _state(new))
                         if d2 and not d1:
